@@ -3,6 +3,7 @@ import QuillModel.Pattern.Lines
 import QuillModel.Pattern.Meta
 import QuillModel.Pattern.Fuel
 import QuillModel.Pattern.Dup
+import QuillModel.Pattern.Calls
 /-!
 # C12 — the line handed to a sink equals the pattern with every attribute substituted
 
@@ -298,6 +299,104 @@ theorem joinNamed_eq (l : List (Str × Str)) :
       have h : joinNamed ((k, v) :: kv2 :: l2) = k ++ ':' :: ' ' :: (v ++ ',' :: ' ' :: joinNamed (kv2 :: l2)) := rfl
       rw [h, ih]
       simp [List.intercalate]
+
+/-! ## One formatter, many statements ("… for every statement")
+
+A `PatternFormatter` handles every statement of its logger; `_args` is a member. `Pattern/Calls.lean` models the
+instance as a state machine over `format()` calls (`Inst.step`, `formatCalls`). For the pinned code the state is
+invisible: every call gives what a fresh formatter gives for that call alone, so `%(time)` is
+`TimestampFormatter::format_timestamp` (`tf`, C13's subject) of the statement's own timestamp — the first call, a
+repeated timestamp and timestamp 0 are no exceptions. -/
+
+/-- the outcome of a call does not depend on the calls the formatter handled before (any pattern, accepted or not) -/
+theorem C12_call_independent_of_earlier_calls (pattern : Str) (tf : Nat → Str) (pre : List Call) (k : Call) :
+    formatLast pattern tf pre k = formatPattern pattern (k.valuation tf) := formatLast_eq pattern tf pre k
+
+/-- **C12 over the life of a formatter, partial (F7 hypothesis as in the main theorem):** every call of a sequence of
+    calls through one formatter returns the direct substitution of *its own* attribute values, `%(time)` being `tf` of
+    its own timestamp. -/
+theorem C12_every_call_eq_substitution_partial (p : List Item) (tf : Nat → Str) (calls : List Call) (hwf : WF p)
+    (hnb : NoBrace p) (hne : printPattern p ≠ []) :
+    formatCalls false (printPattern p) tf calls =
+      calls.map fun k => .line (p.flatMap (render (k.valuation tf)) ++ ['\n']) := by
+  rw [formatCalls_eq]
+  apply List.map_congr_left
+  intro k _
+  exact C12_format_eq_substitution_partial p _ hwf hnb hne
+
+/-- `%(time)` with any (valid) width/alignment spec: two calls with the same timestamp print the same text, whatever
+    either formatter handled before and whatever the other attributes are -/
+theorem C12_time_function_of_timestamp (spec : Option Spec) (hsp : (Item.field .time spec).wf = true) (tf : Nat → Str)
+    (pre pre' : List Call) (k k' : Call) (h : k.ts = k'.ts) :
+    formatLast (printPattern [.field .time spec]) tf pre k = formatLast (printPattern [.field .time spec]) tf pre' k' := by
+  have hwf : WF [Item.field .time spec] := by
+    refine ⟨?_, rfl, by simp [attrsOf]⟩
+    intro it hit
+    simp only [List.mem_singleton] at hit
+    subst hit
+    exact hsp
+  have hnb : NoBrace [Item.field .time spec] := by
+    intro it hit
+    simp only [List.mem_singleton] at hit
+    subst hit
+    rfl
+  have hne : printPattern [Item.field .time spec] ≠ [] := by
+    cases spec <;> simp [printPattern, Item.print]
+  rw [formatLast_eq, formatLast_eq, C12_format_eq_substitution_partial _ _ hwf hnb hne,
+    C12_format_eq_substitution_partial _ _ hwf hnb hne]
+  cases spec <;> simp [render, Call.valuation, h]
+
+/-- … and the very first call of a fresh formatter with timestamp 0 prints `tf 0` (with the spec applied), not the
+    placeholder the constructor left in the slot -/
+theorem C12_first_call_timestamp_zero (tf : Nat → Str) (vals : Attr → Str) :
+    formatLast "%(time)".toList tf [] ⟨0, vals⟩ = .line (tf 0 ++ ['\n']) ∧
+    formatLast "[%(time:>12)] %(message)".toList tf [] ⟨0, vals⟩ =
+      .line ('[' :: (applySpec { align := some .right, width := 12 } (tf 0) ++ "] ".toList ++ vals .message ++ ['\n'])) := by
+  constructor
+  · rw [formatLast_eq]
+    have := C12_format_eq_substitution_partial [.field .time none] (Call.valuation tf ⟨0, vals⟩) (by decide) (by decide)
+      (by decide)
+    have hp : printPattern [.field .time none] = "%(time)".toList := by decide
+    rw [hp] at this
+    rw [this]
+    simp [render, Call.valuation]
+  · rw [formatLast_eq]
+    have := C12_format_eq_substitution_partial
+      [.lit "[".toList, .field .time (some { align := some .right, width := 12 }), .lit "] ".toList, .field .message none]
+      (Call.valuation tf ⟨0, vals⟩) (by decide) (by decide) (by decide)
+    have hp : printPattern [.lit "[".toList, .field .time (some { align := some .right, width := 12 }), .lit "] ".toList,
+        .field .message none] = "[%(time:>12)] %(message)".toList := by decide
+    rw [hp] at this
+    rw [this]
+    simp [render, Call.valuation]
+
+/-- the timestamp sequence 0, 0, t, 0 through `%(time) %(message)` -/
+example (tf : Nat → Str) (t : Nat) (m : Attr → Str) :
+    formatCalls false "%(time) %(message)".toList tf [⟨0, m⟩, ⟨0, m⟩, ⟨t, m⟩, ⟨0, m⟩] =
+      [.line (tf 0 ++ ' ' :: (m .message ++ ['\n'])), .line (tf 0 ++ ' ' :: (m .message ++ ['\n'])),
+       .line (tf t ++ ' ' :: (m .message ++ ['\n'])), .line (tf 0 ++ ' ' :: (m .message ++ ['\n']))] := by
+  have hp : printPattern [.field .time none, .lit " ".toList, .field .message none] = "%(time) %(message)".toList := by
+    decide
+  have := C12_every_call_eq_substitution_partial [.field .time none, .lit " ".toList, .field .message none] tf
+    [⟨0, m⟩, ⟨0, m⟩, ⟨t, m⟩, ⟨0, m⟩] (by decide) (by decide) (by decide)
+  rw [hp] at this
+  rw [this]
+  simp [render, Call.valuation]
+
+/-- the calls of the witness below: timestamps 0, 0, 7, 0; message `m` -/
+def memoWitnessCalls : List Call :=
+  [⟨0, fun _ => ['m']⟩, ⟨0, fun _ => ['m']⟩, ⟨7, fun _ => ['m']⟩, ⟨0, fun _ => ['m']⟩]
+
+/-- **Why the `Time` slot must be filled on every call** (the guard extracted as `formatSeq` and re-proved in
+    `Obligations.pattern_format_seq`): the variant that refreshes `%(time)` only `if (timestamp != _last_timestamp)`,
+    `_last_timestamp{0}`, prints the placeholder `time` for the first statements stamped 0 — the pinned code prints the
+    time. (`tf` = decimal digits of the timestamp, for concreteness.) -/
+theorem C12_memoised_time_fails :
+    formatCalls true "[%(time:>6)] %(message)".toList digits memoWitnessCalls =
+      [.line "[  time] m\n".toList, .line "[  time] m\n".toList, .line "[     7] m\n".toList, .line "[     0] m\n".toList] ∧
+    formatCalls false "[%(time:>6)] %(message)".toList digits memoWitnessCalls =
+      [.line "[     0] m\n".toList, .line "[     0] m\n".toList, .line "[     7] m\n".toList, .line "[     0] m\n".toList] := by
+  decide
 
 /-! ## Runtime metadata -/
 
